@@ -46,6 +46,9 @@ struct P {
     ops: Vec<Op>,
     link: LinkCfg,
     bus_delays: bool,
+    /// fault kind `cancel_task`: (operation index, await points survived) - that request / release is dropped midway
+    #[serde(default)]
+    cancel: Option<(u8, u32)>,
 }
 
 #[derive(Clone, Copy, Debug, PartialEq)]
@@ -66,7 +69,7 @@ impl Scenario for C36Scn {
         "C36"
     }
     fn rule(&self) -> &'static str {
-        "a bus connection (real client handshake + Hello against the fake bus) runs a history of 2..12 operations separated by quiescence (half of the histories drawn blindly, half guided by a simulation of the bus so that operations mostly have an effect): request_name_with_flags (every flag combination), release_name, a RequestName sent to the bus directly while the connection does not hold the name (so that the bus later answers AlreadyOwner itself; the same happens when a name lost to a replacement is inherited back from the queue), and bus-side events: another connection owns / releases / takes over a name (the fake bus then emits the genuine NameAcquired / NameLost it would emit), forged NameAcquired / NameLost from a peer; bus replies carry seeded delays; oracle = name-status model {none, owner, queued}: AlreadyOwner / InQueue are answered locally (no RequestName on the bus) exactly when the model says so, otherwise one RequestName reaches the bus and its reply is reported; release_name is true iff held or queued; forged signals change nothing; non-trivial = the history contains a genuine bus-side ownership change or a forged signal while a name is held or queued"
+        "a bus connection (real client handshake + Hello against the fake bus) runs a history of 2..12 operations separated by quiescence (half of the histories drawn blindly, half guided by a simulation of the bus so that operations mostly have an effect): request_name_with_flags (every flag combination), release_name, a RequestName sent to the bus directly while the connection does not hold the name (so that the bus later answers AlreadyOwner itself; the same happens when a name lost to a replacement is inherited back from the queue), in a quarter of the runs one request / release is cancelled at one of its first await points (fault kind cancel_task; the bookkeeping must then follow what the bus was told and answered), and bus-side events: another connection owns / releases / takes over a name (the fake bus then emits the genuine NameAcquired / NameLost it would emit), forged NameAcquired / NameLost from a peer; bus replies carry seeded delays; oracle = name-status model {none, owner, queued}: AlreadyOwner / InQueue are answered locally (no RequestName on the bus) exactly when the model says so, otherwise one RequestName reaches the bus and its reply is reported; release_name is true iff held or queued; forged signals change nothing; non-trivial = the history contains a genuine bus-side ownership change or a forged signal while a name is held or queued"
     }
     fn runs(&self, tier: Tier) -> u64 {
         match tier {
@@ -172,17 +175,42 @@ impl Scenario for C36Scn {
             ops.push(op);
         }
         let sched = SchedCfg::generate(rng, &["monitor_name", "socket reader"]);
-        (sched, j(&P { ops, link: gen_read_cfg(rng), bus_delays: rng.chance(2, 3) }))
+        let own: Vec<u8> = ops.iter().enumerate().filter(|(_, o)| matches!(o, Op::Request(..) | Op::Release(..))).map(|(i, _)| i as u8).collect();
+        let cancel = if !own.is_empty() && rng.chance(1, 4) { Some((*rng.pick(&own), rng.below(5) as u32)) } else { None };
+        (sched, j(&P { ops, link: gen_read_cfg(rng), bus_delays: rng.chance(2, 3), cancel }))
     }
 
     fn shrink(&self, body: &Value) -> Vec<Value> {
         let p: P = unj(body);
         let mut out = vec![];
-        for o in drop_candidates(&p.ops) {
-            if !o.is_empty() {
+        match p.cancel {
+            None => {
+                for o in drop_candidates(&p.ops) {
+                    if !o.is_empty() {
+                        let mut q = p.clone();
+                        q.ops = o;
+                        out.push(j(&q));
+                    }
+                }
+            }
+            Some((ci, n)) => {
+                // drop single operations, keeping the cancelled one and its index right
+                for i in 0..p.ops.len() {
+                    if i != ci as usize {
+                        let mut q = p.clone();
+                        q.ops.remove(i);
+                        q.cancel = Some((if i < ci as usize { ci - 1 } else { ci }, n));
+                        out.push(j(&q));
+                    }
+                }
                 let mut q = p.clone();
-                q.ops = o;
+                q.cancel = None;
                 out.push(j(&q));
+                if n > 0 {
+                    let mut q = p.clone();
+                    q.cancel = Some((ci, n - 1));
+                    out.push(j(&q));
+                }
             }
         }
         for f in [|q: &mut P| q.link = LinkCfg::default(), |q: &mut P| q.bus_delays = false] {
@@ -218,6 +246,7 @@ impl Scenario for C36Scn {
         let mut model: BTreeMap<u8, Status> = BTreeMap::new();
         let mut nontrivial = false;
         let mut direct_granted = false;
+        let mut after_cancel = false;
         let mut verdict = None;
         for (i, op) in p.ops.iter().enumerate() {
             let calls_before = bus.lock().unwrap().calls.len();
@@ -232,7 +261,11 @@ impl Scenario for C36Scn {
                     let res = shared(None::<Res>);
                     let (r2, c2) = (res.clone(), conn.clone());
                     let is_req = matches!(op, Op::Request(..));
-                    let t = w.spawn("client-op", async move {
+                    let cancel_at = match p.cancel {
+                        Some((ci, n)) if ci as usize == i => Some(n),
+                        _ => None,
+                    };
+                    let t = w.spawn("client-op", cancel_after(w, cancel_at, async move {
                         let r = if is_req {
                             let f = BitFlags::<RequestNameFlags>::from_bits_truncate(flags as u32);
                             Res::Request(c2.request_name_with_flags(NAMES[n as usize], f).await.map_err(|e| e.to_string()))
@@ -240,7 +273,7 @@ impl Scenario for C36Scn {
                             Res::Release(c2.release_name(NAMES[n as usize]).await.map_err(|e| e.to_string()))
                         };
                         *r2.lock().unwrap() = Some(r);
-                    });
+                    }));
                     w.run();
                     drop(t);
                     let got = res.lock().unwrap().take();
@@ -248,6 +281,25 @@ impl Scenario for C36Scn {
                     let st = held(&model, n);
                     let name = NAMES[n as usize];
                     let Some(got) = got else {
+                        if cancel_at.is_some() {
+                            // Cancelled midway: the bookkeeping has to follow what the bus was told and answered.
+                            w.count("probe.request_or_release_cancelled_midway");
+                            after_cancel = true;
+                            match new_calls.first() {
+                                Some(c) if c.0 == "RequestName" => {
+                                    model.insert(n, match c.3 {
+                                        1 | 4 => Status::Owner,
+                                        2 => Status::Queued,
+                                        _ => Status::None,
+                                    });
+                                }
+                                Some(c) if c.0 == "ReleaseName" && c.3 == 1 => {
+                                    model.insert(n, Status::None);
+                                }
+                                _ => {}
+                            }
+                            continue;
+                        }
                         verdict = Some(Verdict::fail("hang", "operation-never-returned", format!("op {i} {op:?} never returned")));
                         break;
                     };
@@ -377,6 +429,12 @@ impl Scenario for C36Scn {
         raw.rx.drop_wakers();
         if nontrivial {
             w.count("probe.bus_side_change_or_forgery_while_name_held");
+        }
+        // after a cancelled operation every rule carries its own fingerprint
+        if let (true, Some(v)) = (after_cancel, verdict.as_mut()) {
+            if let Some(viol) = v.violation.as_mut() {
+                viol.disc = format!("after-cancelled-operation-{}", viol.disc);
+            }
         }
         verdict.unwrap_or_else(|| Verdict::ok(nontrivial))
     }
